@@ -81,6 +81,7 @@ int cmd_routes (void) ;
 /* gsmx.c (C06, GSM) */
 void op_cseek (char **tok, int ntok) ;
 void op_query (char **tok, int ntok) ;		/* harness/query.c: byterate, fdpos */
+void op_errapi (char **tok, int ntok) ;		/* harness/errapi.c: perror, errstr, wsync */
 /* ledger.c (C16) */
 void op_ledger (char **tok, int ntok) ;
 /* meta.c (C12) */
